@@ -158,7 +158,7 @@ impl V for String {
     fn name() -> String { "String".into() }
 }
 
-fn len(r: &mut Rng, d: u32) -> usize {
+pub fn len(r: &mut Rng, d: u32) -> usize {
     if d == 0 {
         return r.below(2) as usize;
     }
